@@ -23,7 +23,7 @@
                   RClosed1    clnt.done <- true (as coded: rendezvous with the idle sender;
                               repaired: close(clnt.done)), takes the list
                   RFanout     r.Err = err; r.Done <- r   for the head of the taken list; r = r.next
-     peer / app   PeerReply PeerFrame PeerCut PeerClose Unmount
+     peer / app   PeerReply PeerFrame PeerCut PeerClose PeerHalfClose Unmount
 
    Rendezvous steps are enabled only when the partner is ready (the controller never releases a
    goroutine into a channel operation whose partner is busy, see docs/client.md); a goroutine that
@@ -42,6 +42,9 @@
      FixFanNext  FALSE = as coded: the fan-out loop reads r.next after `r.Done <- r`; the woken caller's
                  ReqFree clears r.next concurrently, so the rest of the list may never be failed
                  (a race: both outcomes are possible, RFanout(lost))
+     CloseOnFail (only with FixHandoff) FALSE = the failure path does not close the socket: a writer
+                 blocked in Write towards a peer that ended its sending direction but no longer
+                 reads ("halfclose") is never released and recv waits for it for ever
      WaitSender  (only with FixHandoff) FALSE = the naive repair `close(done)` alone: the fan-out
                  can then let a caller free a Req that the sender still holds (it dereferences
                  req.Tc after csend_got) -- kept in the model to show why the repair waits *)
@@ -53,10 +56,11 @@ CONSTANTS K,            \* callers
           CacheCap,     \* capacity of clnt.reqchan (16 in the code)
           TagCallers,   \* callers that use the pipelined Tag interface (one private tag each)
           Kinds,        \* reply kinds the peer chooses from: "ok", "rerror", "wrongtype"
-          Faults,       \* subset of {"close","cut","garbage","unknown","oversize","unmount"}
+          Faults,       \* subset of {"close","cut","garbage","unknown","oversize","unmount","halfclose"}
           MaxFaults,
           FixHandoff, FixLeak, FixOversize, FixTagNil, FixFanNext,
-          WaitSender    \* repaired code: recv waits for the send goroutine to return before the fan-out
+          WaitSender,   \* repaired code: recv waits for the send goroutine to return before the fan-out
+          CloseOnFail   \* repaired code: recv closes the socket before it stops the writer
 
 Callers == 1..K
 Calls == 1..(K * NCalls)
@@ -75,7 +79,8 @@ VARIABLES pc, ncall, res, tag,      \* callers: control state, calls started, re
           rpc, rmsg, rcur, fan,     \* receiver: read | deliver | closed1 | closing | fanout | exited | panic
           doneClosed,               \* repaired code: clnt.done has been closed
           toPeer, nrecv,            \* requests the peer has received and not answered; count
-          fromPeer, conn,           \* frames in flight to the client; open | peerclosed | clntclosed
+          fromPeer, conn,           \* frames in flight to the client; open | peerclosed | rdclosed | clntclosed
+                                    \* (rdclosed: the peer ended its sending direction and stopped reading)
           got,                      \* ghost: calls whose complete reply the client has read
           nfault
 
@@ -173,7 +178,7 @@ SGrant ==
   /\ IF res[scur].st # "none"
        THEN /\ rpc' = "panic"                    \* req.Tc of a Req its caller has already freed
             /\ UNCHANGED <<spc, scur, conn, fromPeer, cerr, fan, list>>
-     ELSE IF conn = "open"
+     ELSE IF conn \in {"open", "rdclosed"}
        THEN /\ spc' = "writing"
             /\ UNCHANGED <<scur, conn, fromPeer, rpc, cerr, fan, list>>
        ELSE /\ conn' = "clntclosed" /\ fromPeer' = <<>>     \* write error: conn.Close()
@@ -223,7 +228,7 @@ RRead ==
 
 RReadEOF ==
   /\ Alive
-  /\ rpc = "read" /\ fromPeer = <<>> /\ conn = "peerclosed"
+  /\ rpc = "read" /\ fromPeer = <<>> /\ conn \in {"peerclosed", "rdclosed"}
   /\ cerr' = TRUE /\ rpc' = "closed1"
   /\ UNCHANGED <<pc, ncall, res, tag, comp, pool, cache, leaked, list, spc, scur, rmsg, rcur, fan,
                  doneClosed, toPeer, nrecv, fromPeer, conn, got, nfault>>
@@ -259,11 +264,14 @@ RClosed1 ==
             /\ UNCHANGED <<doneClosed, conn, fromPeer, scur>>
        ELSE \* repaired: conn.Close() (fails a Write the sender is blocked in), close(clnt.done),
             \* then wait for the sender to return before touching the list
-            /\ doneClosed' = TRUE /\ conn' = "clntclosed" /\ fromPeer' = <<>>
-            /\ IF WaitSender /\ spc = "got"
+            /\ doneClosed' = TRUE
+            /\ conn' = (IF CloseOnFail THEN "clntclosed" ELSE conn)
+            /\ fromPeer' = (IF CloseOnFail THEN <<>> ELSE fromPeer)
+            /\ LET released == spc = "idle" \/ (spc = "writing" /\ CloseOnFail) IN
+               IF WaitSender /\ ~released
                  THEN rpc' = "closing" /\ UNCHANGED <<spc, scur, fan, list>>
-                 ELSE /\ spc' = (IF spc \in {"idle", "writing"} THEN "exited" ELSE spc)
-                      /\ scur' = (IF spc = "writing" THEN 0 ELSE scur)
+                 ELSE /\ spc' = (IF released THEN "exited" ELSE spc)
+                      /\ scur' = (IF spc = "writing" /\ released THEN 0 ELSE scur)
                       /\ fan' = list /\ list' = <<>>
                       /\ rpc' = (IF list = <<>> THEN "exited" ELSE "fanout")
   /\ UNCHANGED <<pc, ncall, res, tag, comp, pool, cache, leaked, cerr, rmsg, rcur, toPeer, nrecv,
@@ -344,6 +352,13 @@ PeerCut(c) ==               \* a proper prefix of the reply to c, then the conne
   /\ UNCHANGED <<pc, ncall, res, tag, comp, pool, cache, leaked, rmsg, rcur, doneClosed,
                  nrecv, got>>
 
+PeerHalfClose ==            \* the peer ends its sending direction and stops reading
+  /\ Alive
+  /\ conn = "open" /\ "halfclose" \in Faults /\ nfault < MaxFaults
+  /\ conn' = "rdclosed" /\ nfault' = nfault + 1
+  /\ UNCHANGED <<pc, ncall, res, tag, comp, pool, cache, leaked, list, cerr, spc, scur, rpc, rmsg, rcur,
+                 fan, doneClosed, toPeer, nrecv, fromPeer, got>>
+
 Unmount ==
   /\ Alive
   /\ conn # "clntclosed" /\ "unmount" \in Faults /\ nfault < MaxFaults
@@ -366,7 +381,7 @@ Next ==
   \/ \E c \in Calls, kind \in {"ok", "rerror", "wrongtype"} : PeerReply(c, kind)
   \/ \E kind \in {"garbage", "unknown", "oversize"} : PeerFrame(kind)
   \/ \E c \in Calls : PeerCut(c)
-  \/ PeerClose \/ Unmount
+  \/ PeerClose \/ PeerHalfClose \/ Unmount
   \/ Finished
 
 Spec == Init /\ [][Next]_vars
@@ -406,8 +421,8 @@ TypeOK ==
   /\ \A k \in Callers : pc[k] \in {"idle", "enq", "handoff", "wait", "done"}
   /\ spc \in {"idle", "got", "writing", "exited"}
   /\ rpc \in {"read", "deliver", "closed1", "closing", "fanout", "exited", "panic"}
-  /\ (rpc = "closing" => doneClosed /\ spc = "got")
-  /\ conn \in {"open", "peerclosed", "clntclosed"}
+  /\ (rpc = "closing" => doneClosed /\ spc \in {"got", "writing"})
+  /\ conn \in {"open", "peerclosed", "rdclosed", "clntclosed"}
   /\ (conn = "clntclosed" => fromPeer = <<>>)
 
 (* ------------------------------------------------------------------ abstraction seen by the controller *)
